@@ -362,6 +362,6 @@ def run_cache_model(case: dict[str, Any]) -> Outcome:
 
 
 def main(chk: Check) -> None:
-    chk.explore("histories", histories, run_history, quick=450, thorough=12000)
-    chk.explore("collisions", collision_histories, run_collision, quick=120, thorough=2000)
-    chk.explore("cache_model", cache_cases, run_cache_model, quick=1500, thorough=40000)
+    chk.explore("histories", histories, run_history, quick=900, thorough=12000)
+    chk.explore("collisions", collision_histories, run_collision, quick=240, thorough=2000)
+    chk.explore("cache_model", cache_cases, run_cache_model, quick=3000, thorough=40000)
